@@ -12,7 +12,7 @@ from pgmc.findings import Judge, Known
 PROP = "C19"
 KNOWN = Known(PROP)
 FLOOR = {"quick": 500, "thorough": 2000}
-CH = ["a", "b", "1", ".", "|", "+", "*", "(", ")", "[", "]", "\\", "'", '"', " "]
+CH = ["a", "A", "b", "1", ".", "|", "+", "*", "(", ")", "[", "]", "\\", "'", '"', " "]
 NAMES_AS_TEXT = ["S", "E", "any", "EMPTY", "STOP", "KEYWORD", "LAYOUT",
                  "terminals", "import", "t0"]
 RESERVED = {"EMPTY", "STOP"}
@@ -84,6 +84,8 @@ def scan_lit(t, s, ic):
     while i < len(s):
         seg = s[i:i + len(t)]
         if (seg.lower() if ic else seg) == tl:
+            # under ignore_case the token's value is the terminal's declared
+            # spelling (StringRecognizer returns its own text)
             out.append(("T", t))
             i += len(t)
         elif s[i] != "x":
